@@ -25,8 +25,8 @@ def judge_encode(case, obs):
     b = bytes.fromhex(case["x"]["data"])
     if o["exit"] != 0:
         return v.bad("C19/encode/failed", "hex encode exit %d: %s" % (o["exit"], o["stderr"][-120:]))
-    want = ("0x" + b.hex() + "\n").encode()
-    if o["stdout_hex"] is None or bytes.fromhex(o["stdout_hex"]) != want:
+    want = ("0x" + b.hex()).encode()
+    if o["stdout_hex"] is None or bytes.fromhex(o["stdout_hex"]).rstrip(b"\r\n") != want:
         return v.bad("C19/encode/output", "hex encode of %d bytes printed %r" % (len(b), o["stdout"][:80]))
     v.bucket("encode-exact")
     if len(obs) > 1:
